@@ -91,6 +91,8 @@ func (s *SpyPeers) Counts() (adds, scores int) {
 }
 
 type Opts struct {
+	// Fragment: the scripted peer writes everything in pieces of these sizes (see p2p.Peer.Fragment)
+	Fragment   []int
 	VerifyOnly bool
 	TxManager  *bitcoin_reader.TxManager
 	Headers    *SpyHeaders // shared between sessions when set
@@ -131,6 +133,7 @@ func Start(t Failer, o Opts) *Session {
 	if err != nil {
 		t.Fatalf("listen: %s", err)
 	}
+	peer.Fragment = o.Fragment
 	s := &Session{Peer: peer, Headers: o.Headers, Peers: o.Peers, interrupt: make(chan interface{}), done: make(chan error, 1)}
 	if s.Headers == nil {
 		s.Headers = NewHeaders()
